@@ -1088,6 +1088,7 @@ func lex1(c *Ctx) {
 	fn := m.fn
 	c.Mark(fn)
 	unguarded := m.unguardedEntry()
+	pl := &lexLin{m: m, unguarded: unguarded}
 	// stores
 	for _, st := range m.stores {
 		key := fmt.Sprintf("%s:pos=@%s", Q(fn), relLine(c, fn, st.Pos()))
@@ -1108,6 +1109,8 @@ func lex1(c *Ctx) {
 			good, whyNot := m.cursorStoreOK(st, unguarded)
 			if good {
 				c.OK(key, st.Pos(), "set to a scan index that starts at pos and is advanced by 1 only while < len: old pos <= pos <= len")
+			} else if pl.le(st.Val, nil, true, 0, st.Block()) {
+				c.OK(key, st.Pos(), "set to a value that linear arithmetic over the scan indices bounds by len")
 			} else {
 				c.Bad(key, st.Pos(), "%s", whyNot)
 			}
@@ -1115,6 +1118,10 @@ func lex1(c *Ctx) {
 		}
 		one, isC := ir.ConstInt(bo.Y)
 		if !isC || one != 1 {
+			if pl.le(st.Val, nil, true, 0, st.Block()) {
+				c.OK(key, st.Pos(), "set to a value that linear arithmetic over the scan indices bounds by len")
+				continue
+			}
 			c.Bad(key, st.Pos(), "the position is advanced by something other than 1 (pos <= len can no longer be maintained)")
 			continue
 		}
@@ -1143,6 +1150,10 @@ func lex1(c *Ctx) {
 		if !m.isPosLoad(lk.Index) {
 			if _, isPhi := lk.Index.(*ssa.Phi); isPhi && m.boundedIndex(lk.Index, unguarded, map[ssa.Value]bool{}) {
 				c.Check(m.cursorLT(lk.Index, lk.Block()), key, lk.Pos(), "read at a scan index under a dominating index < len test", "this byte read at a scan index is not dominated by an index < len test (index out of range)")
+				return
+			}
+			if pl.le(lk.Index, nil, true, 1, lk.Block()) {
+				c.OK(key, lk.Pos(), "the index is below len by linear arithmetic over the scan indices and the dominating tests")
 				return
 			}
 			c.Undecided(key, lk.Pos(), "the index is not the scanner position")
@@ -1178,6 +1189,22 @@ func lex1(c *Ctx) {
 			if bo, isBo := sl.Low.(*ssa.BinOp); isBo && !okLo && bo.Op == token.ADD && m.isPosLoad(bo.X) {
 				if one, isC := ir.ConstInt(bo.Y); isC && one == 1 && m.advancedSince(bo.X.(ssa.Instruction), sl) {
 					okLo = true
+				}
+			}
+			if !(okHi && okLo) {
+				// linear fallback: lo <= hi <= len
+				okLin := true
+				if sl.High != nil {
+					okLin = pl.le(sl.High, nil, true, 0, sl.Block())
+					if okLin && sl.Low != nil {
+						okLin = pl.le(sl.Low, sl.High, false, 0, sl.Block())
+					}
+				} else if sl.Low != nil {
+					okLin = pl.le(sl.Low, nil, true, 0, sl.Block())
+				}
+				if okLin {
+					c.OK(key, sl.Pos(), "slice bounds in order and within the input by linear arithmetic over the scan indices")
+					return
 				}
 			}
 			c.Check(okHi && okLo, key, sl.Pos(), "usage[a:b] with a an earlier and b a later content of pos (0 <= a <= b <= len)", "slice bounds are not two contents of the position cell in order")
